@@ -11,6 +11,8 @@ package main
 //   forged-rc   a correct operator decides V in round 1 alone; the others time out (prepared V) and
 //               exchange round changes; the Byzantine leader of round 2 proposes W with a justification
 //               that names the correct operators with fabricated unprepared round changes.
+//   ignore-lock as forged-rc, but the justification is genuine (prepared round changes with their prepares):
+//               the Byzantine leader of round 2 attaches everything and proposes another value all the same.
 //   early-prop  correct operators split between round 1 and round 2; the Byzantine leader of round 1
 //               sends a justified round-2 proposal.
 //   solo        one correct operator; every other key plays a proposal / prepares / commits sequence for a
@@ -26,7 +28,7 @@ import (
 	"verifharness/hx"
 )
 
-var attackKinds = []string{"equivocate", "forged-rc", "early-prop", "solo"}
+var attackKinds = []string{"equivocate", "forged-rc", "early-prop", "solo", "ignore-lock"}
 
 func ofType(ms []*specqbft.SignedMessage, t specqbft.MessageType) []*specqbft.SignedMessage {
 	var out []*specqbft.SignedMessage
@@ -152,7 +154,7 @@ func attackOne(out *hx.Out, seed, c uint64, only string) {
 		b = s.all(s.honest, preps)
 		coms := append(ofType(b, specqbft.CommitMsgType), byzAll(specqbft.CommitMsgType, 1, rootV, rootW)...)
 		s.all(s.honest, coms)
-	case "forged-rc":
+	case "forged-rc", "ignore-lock":
 		// Byzantine leader of round 2 that does not lead round 1
 		if ld(1) == ld(2) {
 			return
@@ -191,10 +193,21 @@ func attackOne(out *hx.Out, seed, c uint64, only string) {
 		desc = fmt.Sprintf("decides-alone=%d leader2=%d others=%v", lucky, ld(2), rest)
 		msg := s.base(specqbft.ProposalMsgType, 2, rootW)
 		var just []*specqbft.SignedMessage
-		for _, id := range rest {
-			rc := s.sign(ld(2), s.base(specqbft.RoundChangeMsgType, 2, [32]byte{}), nil) // not that operator's signature
-			rc.Signers = []spectypes.OperatorID{id}
-			just = append(just, rc)
+		if kind == "ignore-lock" {
+			just = append(just, rcs...) // genuine, prepared
+			for _, rc := range rcs {
+				if rc.Message.RoundChangePrepared() {
+					pj, _ := rc.Message.GetRoundChangeJustifications()
+					msg.PrepareJustification, _ = specqbft.MarshalJustifications(pj)
+					break
+				}
+			}
+		} else {
+			for _, id := range rest {
+				rc := s.sign(ld(2), s.base(specqbft.RoundChangeMsgType, 2, [32]byte{}), nil) // not that operator's signature
+				rc.Signers = []spectypes.OperatorID{id}
+				just = append(just, rc)
+			}
 		}
 		for _, bz := range byzIDs {
 			just = append(just, s.sign(bz, s.base(specqbft.RoundChangeMsgType, 2, [32]byte{}), nil))
